@@ -124,12 +124,9 @@ def opGraph : P String := do
   let n ← pNat; let c ← pNat
   let idx ← pMat n c pIdx
   let ds ← pMat n c pDist
-  let sr := Knn.smoothKnn floatT tol minScale target lcIdx lcFrac 64 ds
-  let rows := (idx.zip (ds.zip sr)).zipIdx.map fun ((ix, d, s, rh), i) =>
-    Knn.memberRow floatT false i s rh ix d
-  match Graph.assemble rows with
+  match Graph.graphOfKnn floatT tol minScale target lcIdx lcFrac 64 r idx ds with
   | none => pure "nan"
-  | some A => pure (fCoo (Graph.symmetrize r A))
+  | some G => pure (fCoo G)
 
 /-- `symmetrize <r> COO` -/
 def opSym : P String := do
@@ -238,6 +235,34 @@ def opSgd : P String := do
   let fl := fun (m : Array (Array Float)) => (m.toList.map (fun r => r.toList.map fb)).flatten
   pure (join (fl s.head ++ fl s.tail ++ s.eons.toList.map fb ++ s.eonns.toList.map fb
     ++ (s.rng.toList.map (fun st => [fWord st.1, fWord st.2.1, fWord st.2.2])).flatten))
+
+/-- `sgdgen <metric> <aliased> <moveOther> <dim> <nVertices> <nHead> <nTail> <nEdges> <a> <b> <gamma> <alpha0> <N>
+        head… tail… hd… tl… eps… epns… rng(3·nHead)` → head… tail… after the whole run of the generic kernel. -/
+def opSgdGen : P String := do
+  let mname ← tok
+  let aliased ← pNat; let moveOther ← pNat
+  let dim ← pNat; let nV ← pNat; let nH ← pNat; let nT ← pNat; let nE ← pNat
+  let a ← pFloat; let b ← pFloat; let gamma ← pFloat
+  let alpha0 ← pFloat; let N ← pNat
+  let head ← pMat nH dim pFloat
+  let tail ← pMat nT dim pFloat
+  let hd ← pMany nE pNat
+  let tl ← pMany nE pNat
+  let eps ← pMany nE pFloat
+  let epns ← pMany nE pFloat
+  let rng ← pMany nH (do let x ← pWord; let y ← pWord; let z ← pWord; pure (x, y, z))
+  let metric : Array Float → Array Float → Float × Array Float ← match mname with
+    | "euclidean" => pure (fun x y => let r := Grad.euclideanGrad floatT 1e-6 x.toList y.toList; (r.1, r.2.toArray))
+    | "manhattan" => pure (fun x y => let r := Grad.manhattanGrad x.toList y.toList; (r.1, r.2.toArray))
+    | "chebyshev" => pure (fun x y => let r := Grad.chebyshevGrad x.toList y.toList; (r.1, r.2.toArray))
+    | _ => throw s!"sgdgen:{mname}"
+  let P : Sgd.Params Float := { a := a, b := b, gamma := gamma, dim := dim, nVertices := nV,
+                                moveOther := moveOther == 1, aliased := aliased == 1 }
+  let s0 : Sgd.State Float := { head := (head.map List.toArray).toArray, tail := (tail.map List.toArray).toArray,
+                                eons := eps.toArray, eonns := epns.toArray, rng := rng.toArray }
+  let s := Sgd.genRunEpochs floatT rnd32 P 1e-6 metric hd.toArray tl.toArray eps.toArray epns.toArray alpha0 N s0
+  let fl := fun (m : Array (Array Float)) => (m.toList.map (fun r => r.toList.map fb)).flatten
+  pure (join (fl s.head ++ fl s.tail))
 
 /-- `eps <nEpochs> <n> weights…` → make_epochs_per_sample -/
 def opEps : P String := do
@@ -452,6 +477,13 @@ def opDensFlag : P String := do
   let dm ← pNat; let lam ← pFloat; let fr ← pFloat; let N ← pNat
   pure (join ((List.range N).map (fun n => if Sgd.densmapFlag (dm == 1) lam fr n N then "1" else "0")))
 
+/-- `prepeats <nEpochs> <n> weights…` → parametric edge repeats -/
+def opPRepeats : P String := do
+  let ne ← pNat
+  let n ← pNat
+  let ws ← pMany n pFloat
+  pure (join ((Sgd.parametricRepeats floatT ws ne).map toString))
+
 def dispatch (op : String) : P String :=
   match op with
   | "knn" => opKnn
@@ -464,6 +496,7 @@ def dispatch (op : String) : P String :=
   | "smetric" => opSMetric
   | "grad" => opGrad
   | "heap" => opHeap
+  | "prepeats" => opPRepeats
   | "radii" => opRadii
   | "densflag" => opDensFlag
   | "laplacian" => opLaplacian
@@ -476,6 +509,7 @@ def dispatch (op : String) : P String :=
   | "resetlc" => opResetLc
   | "tau" => opTau
   | "sgd" => opSgd
+  | "sgdgen" => opSgdGen
   | "eps" => opEps
   | "knndecision" => opKnnDecision
   | "ping" => pure "pong"
